@@ -262,6 +262,23 @@ def eq_unfold_facts(x, y):
     ]
 
 
+def dict_eq_unfold_facts(a, b):
+    """Sound facts about deep equality of two dict terms (objects compare as member sets)."""
+    la, lb = z3.Length(Py.keys(a)), z3.Length(Py.keys(b))
+    return [
+        z3.Implies(dict_eq_py(a, b), la == lb),
+        z3.Implies(dict_eq_rfc(a, b), la == lb),
+        z3.Implies(z3.And(la == 0, lb == 0), z3.And(dict_eq_py(a, b), dict_eq_rfc(a, b))),
+        z3.Implies(
+            z3.And(la == 1, lb == 1),
+            z3.And(
+                dict_eq_py(a, b) == z3.And(py_eq(Py.keys(a)[0], Py.keys(b)[0]), py_eq(Py.vals(a)[0], Py.vals(b)[0])),
+                dict_eq_rfc(a, b) == z3.And(Py.keys(a)[0] == Py.keys(b)[0], rfc_eq(Py.vals(a)[0], Py.vals(b)[0])),
+            ),
+        ),
+    ]
+
+
 # ---------------------------------------------------------------- dict lookup
 
 dict_find = z3.Function("dict_find", SeqPy, Py, z3.IntSort())
